@@ -232,7 +232,7 @@ class Evolver:
              "rename_field_noalias", "promote", "demote", "enum_add_symbol", "enum_remove_symbol", "enum_reorder",
              "fixed_size", "rename_type_alias", "rename_type_noalias", "move_definition", "wrap_union", "unwrap_union",
              "reorder_union", "union_add_branch", "union_remove_branch", "change_namespace", "change_kind",
-             "field_alias_swap", "drop_default", "to_primdict"]
+             "field_alias_swap", "drop_default", "to_primdict", "writer_alias_field", "writer_alias_type"]
 
     def __init__(self, rng):
         self.rng = rng
@@ -297,10 +297,10 @@ class Evolver:
         self.last_site = self.rng.choice(c) if c else None
         return self.last_site
 
-    KEEP_ENCLOSING_DEFAULT = {"rename_type_alias", "rename_type_noalias", "change_namespace", "reorder_fields", "reorder_union",
+    KEEP_ENCLOSING_DEFAULT = {"writer_alias_type", "rename_type_alias", "rename_type_noalias", "change_namespace", "reorder_fields", "reorder_union",
                               "enum_add_symbol", "enum_reorder", "to_primdict", "promote", "demote", "enum_remove_symbol",
                               "move_definition"}
-    PURE = {"rename_type_alias", "rename_type_noalias", "change_namespace", "reorder_fields", "reorder_union", "enum_add_symbol",
+    PURE = {"writer_alias_type", "rename_type_alias", "rename_type_noalias", "change_namespace", "reorder_fields", "reorder_union", "enum_add_symbol",
             "enum_reorder", "to_primdict", "move_definition"}
 
     def step(self, name, top, defs):
@@ -449,6 +449,49 @@ class Evolver:
             if st.field is not None and "default" in st.field:
                 del st.field["default"]
             return "fixed_size@%d" % st.depth
+        if name == "writer_alias_field":
+            # the reader calls a field by a name that is only an alias of the WRITER's field (writer-side aliases do not
+            # count): writer-only field + reader-only field, with / without default, same or another type
+            cands = [(s, f) for s in sites(top) if is_rec(s) for f in s.get()["fields"] if f.get("aliases")]
+            if not cands:
+                return None
+            st, f = rng.choice(cands)
+            self.last_site = st
+            alias = rng.choice(f["aliases"])
+            if any(g is not f and (g["name"] == alias or alias in g.get("aliases", [])) for g in st.get()["fields"]):
+                return None
+            f["name"] = alias
+            del f["aliases"]
+            mode = rng.choice(["same", "same", "nodefault", "othertype-default", "othertype-nodefault"])
+            if mode == "nodefault":
+                f.pop("default", None)
+            elif mode.startswith("othertype"):
+                nt, nd = self.new_type(defs)
+                f["type"] = nt
+                f.pop("default", None)
+                if mode == "othertype-default":
+                    f["default"] = nd
+            return "writer_alias_field@%d:%s%s" % (st.depth, mode, ":default" if "default" in f else ":nodefault")
+        if name == "writer_alias_type":
+            # the reader calls a named type by a name that is only an alias of the WRITER's type
+            st = self.pick(top, lambda s: kind(s.get()) in ("record", "enum", "fixed") and s.get().get("aliases"))
+            if not st:
+                return None
+            d = st.get()
+            old = full_of(d)
+            alias = rng.choice(d["aliases"])
+            if "." in alias:
+                d["namespace"], d["name"] = alias.rsplit(".", 1)
+            else:
+                d["name"] = alias
+            del d["aliases"]
+            new = full_of(d)
+            if new == old or new in defs:
+                return None
+            rename_refs(top[0], old, new)
+            if old in defs:
+                defs[new] = defs.pop(old)
+            return "writer_alias_type@%d:%s" % (st.depth, kind(d))
         if name in ("rename_type_alias", "rename_type_noalias", "change_namespace", "change_kind"):
             st = self.pick(top, lambda s: kind(s.get()) in ("record", "enum", "fixed"))
             if not st:
@@ -604,6 +647,34 @@ class Evolver:
         out = json.loads(json.dumps(finalize(top[0], rng)))
         fastavro.parse_schema(copy.deepcopy(out), {})
         return out, applied
+
+
+def add_writer_aliases(raw, rng, pf=0.35, pt=0.25):
+    """aliases on the fields / named types of a (raw) WRITER schema, in place; returns how many were added"""
+    n = 0
+
+    def walk(s):
+        nonlocal n
+        if isinstance(s, list):
+            for b in s:
+                walk(b)
+        elif isinstance(s, dict):
+            t = s.get("type")
+            if t in NAMED and "aliases" not in s and rng.random() < pt:
+                s["aliases"] = ["WA_" + s["name"].rsplit(".", 1)[-1]]
+                n += 1
+            if t in ("record", "error"):
+                for f in s.get("fields", []):
+                    if "aliases" not in f and rng.random() < pf:
+                        f["aliases"] = ["wa_" + f["name"]] + (["wb_" + f["name"]] if rng.random() < 0.2 else [])
+                        n += 1
+                    walk(f["type"])
+            elif t == "array":
+                walk(s["items"])
+            elif t == "map":
+                walk(s["values"])
+    walk(raw)
+    return n
 
 
 def has_container(s):
